@@ -343,6 +343,21 @@ func (dec *Decoder) ReadReference(p interface{}) {
 	}
 }
 
+// readCount reads an element count or a length. Every element, byte and UTF-16
+// unit takes at least one byte of input, so when decoding from memory a count
+// larger than the rest of the input (or a negative one) is reported as an error
+// instead of being used to size an allocation or bound a loop.
+func (dec *Decoder) readCount() (count int) {
+	count = dec.ReadInt()
+	if count < 0 || (dec.reader == nil && count > dec.tail-dec.head) {
+		if dec.Error == nil {
+			dec.Error = DecodeError("hprose/io: invalid count " + strconv.Itoa(count))
+		}
+		return 0
+	}
+	return
+}
+
 // ResetReader reuse decoder instance by specifying another reader.
 func (dec *Decoder) ResetReader(reader io.Reader) *Decoder {
 	dec.reader = reader
